@@ -576,6 +576,7 @@ def check_config(ctx, shape, ty, flag, m, salt, exhaustive=True):
             ctx.violate(sig + "/num_variables", f"{shape} m={m}: num_variables={nv}, len(to_var())={len(obj.to_var())}, formula {n}", rep); return
         # --- every variable index
         seen = {}
+        jac = []
         idxs = range(n) if exhaustive else sorted({0, n - 1, *[int(x) for x in g.integers(0, n, size=40)]})
         for i in idxs:
             a, pos = idx_v2o(ty, c, gen, i, flag)
@@ -589,10 +590,25 @@ def check_config(ctx, shape, ty, flag, m, salt, exhaustive=True):
             if pos in seen:
                 ctx.violate(sig + "/index/injective", f"{shape} m={m}: var indices {seen[pos]} and {i} point at the same entry", r2); return
             seen[pos] = i
-            gr = gen.calc_gradient(i).to_stacked_vector()
+            gobj = gen.calc_gradient(i)
+            jac.append((i, pos, gobj))
+            gr = gobj.to_stacked_vector()
             hot = np.zeros(ns); hot[pos] = 1.0
             if not eq(gr, hot):
                 ctx.violate(sig + "/gradient/one-hot", f"{shape} m={m}: calc_gradient({i}) is not one-hot at the entry of variable {i}", r2); return
+        # the gradients as a caller holds them (all alive at once, a Jacobian): each is still the one-hot of its variable
+        for i, pos, gobj in jac:
+            hot = np.zeros(ns); hot[pos] = 1.0
+            if not eq(gobj.to_stacked_vector(), hot):
+                ctx.violate(sig + "/gradient/one-hot/held-together", f"{shape} m={m}: calc_gradient({i}) is no longer one-hot at the entry of "
+                            f"variable {i} after the gradients of the other variables were computed", dict(rep, var_index=i)); return
+        # to_var follows the object: after set_zero() the variables are those of the zero object
+        ob2 = make_obj(ty, c, flat, m, flag)
+        v_before = np.array(ob2.to_var(), dtype=np.float64).copy()
+        ob2.set_zero()
+        v_after = np.asarray(ob2.to_var(), dtype=np.float64)
+        if not eq(v_before, v2) or v_after.shape != (n,) or np.abs(v_after).max(initial=0.0) != 0 or np.abs(ob2.to_stacked_vector()).max() != 0:
+            ctx.violate(sig + "/to_var/after-set_zero", f"{shape} m={m}: to_var() after to_var(); set_zero() is not the variable vector of the zeroed object", rep); return
         if exhaustive and flag and sorted(set(range(ns)) - set(seen)) != implied_positions(ty, d, m):
             ctx.violate(sig + "/index/onto", f"{shape} m={m}: entries not hit by a variable are not exactly the implied block", rep); return
         if exhaustive and not flag and len(seen) != ns:
